@@ -25,7 +25,7 @@ type Search struct {
 	Verdict func(in []byte) string
 
 	States, Transitions, Cuts, DeadEdges int64
-	AuditedKeys, AuditPairs             int64
+	AuditedKeys, AuditPairs              int64
 }
 
 type rep struct {
